@@ -33,7 +33,9 @@ def num(v):
     return rat(Fraction(v))
 
 
-class Pi:
+class _G:
+    """the conversions of one gamma (positions, widths, weighted sums, variances)"""
+
     def __init__(self, g):
         self.g = g
 
@@ -76,16 +78,30 @@ class Pi:
             return "nan" if (key == "nan" and rng != "S") else "s:" + key
         return keyn(self.pos(key))
 
+
+class Pi:
+    """gamma is either one map for the whole tree, or (DataFrame histograms, whose axes are different columns) one
+    map per nesting depth: the node at depth k reads column k of the feature"""
+
+    def __init__(self, g, by_depth=None):
+        self.g = g
+        self._one = _G(g)
+        self._by_depth = [_G(x) for x in by_depth] if by_depth else None
+        # single-gamma conversions stay available as attributes (views use them)
+        self.pos, self.width = self._one.pos, self._one.width
+
     def name(self, h):
         q = getattr(h, "quantity", None)
         nm = getattr(q, "name", None)
         return "" if nm is None else str(nm)
 
-    def __call__(self, h):
+    def __call__(self, h, depth=0):
         k = type(h).__name__
         # specialised subclasses keep the factory name through .name
         k = getattr(h, "name", k)
-        P = self
+        P = self._by_depth[min(depth, len(self._by_depth) - 1)] if self._by_depth else self._one
+        R = lambda c: self(c, depth + 1)  # noqa: E731  (children read the next axis)
+        S = lambda c: self(c, depth)  # noqa: E731  (collections and selections do not consume an axis)
         out = {"k": k, "e": num(h.entries)}
         if k == "Count":
             return out
@@ -111,43 +127,43 @@ class Pi:
         elif k == "Bin":
             out["lo"] = P.pos(h.low)
             out["hi"] = P.pos(h.high)
-            out["vals"] = [P(v) for v in h.values]
-            out["under"] = P(h.underflow)
-            out["over"] = P(h.overflow)
-            out["nan"] = P(h.nanflow)
+            out["vals"] = [R(v) for v in h.values]
+            out["under"] = R(h.underflow)
+            out["over"] = R(h.overflow)
+            out["nan"] = R(h.nanflow)
         elif k == "SparselyBin":
             out["width"] = P.width(h.binWidth)
             out["origin"] = P.pos(h.origin)
             out["ctype"] = h.contentType
-            out["bins"] = {str(int(i)): P(v) for i, v in h.bins.items()}
-            out["nan"] = P(h.nanflow)
+            out["bins"] = {str(int(i)): R(v) for i, v in h.bins.items()}
+            out["nan"] = R(h.nanflow)
         elif k == "CentrallyBin":
             bins = h.bins if h.bins is not None else []  # `bins is None` is observable: it projects to no bins
             out["centers"] = [P.pos(c) for c, v in bins]
-            out["bins"] = [P(v) for c, v in bins]
-            out["nan"] = P(h.nanflow)
+            out["bins"] = [R(v) for c, v in bins]
+            out["nan"] = R(h.nanflow)
         elif k in ("IrregularlyBin", "Stack"):
             out["ths"] = [P.pos(c) for c, v in h.bins]
-            out["bins"] = [P(v) for c, v in h.bins]
-            out["nan"] = P(h.nanflow)
+            out["bins"] = [R(v) for c, v in h.bins]
+            out["nan"] = R(h.nanflow)
         elif k == "Categorize":
             out["ctype"] = h.contentType
-            out["bins"] = {str(key): P(v) for key, v in h.bins.items()}
+            out["bins"] = {str(key): R(v) for key, v in h.bins.items()}
             assert len(out["bins"]) == len(h.bins), "category key collision"
         elif k == "Fraction":
-            out["num"] = P(h.numerator)
-            out["den"] = P(h.denominator)
+            out["num"] = S(h.numerator)
+            out["den"] = S(h.denominator)
         elif k == "Select":
-            out["cut"] = P(h.cut)
+            out["cut"] = S(h.cut)
         elif k in ("Label", "UntypedLabel"):
-            out["pairs"] = {str(key): P(v) for key, v in h.pairs.items()}
+            out["pairs"] = {str(key): S(v) for key, v in h.pairs.items()}
             return out
         elif k in ("Index", "Branch"):
-            out["vals"] = [P(v) for v in h.values]
+            out["vals"] = [S(v) for v in h.values]
             return out
         else:
             raise TypeError("unknown aggregator %r" % k)
-        out["nm"] = P.name(h)
+        out["nm"] = self.name(h)
         return out
 
 
